@@ -41,6 +41,7 @@ META = {
 TOPS = ("verif-a", "verif_a", "verif-b", "verif_c")
 SUBS = ("x", "y-z", "y_z", "w")
 LEAF = ("p", "q-r", "q_r")
+SER_ALPHA = ("a", "?", ">", "~", "/", ":", " ", "é", "=", "-", "_", "{", "0")
 
 
 def tier_cfg(tier):
@@ -374,6 +375,12 @@ def run_one(tape, cfg):
                         out.violate("collect_env_touched_config", f"history {hist}")
                 elif op == "serialize":
                     t = gen_tree(tape)
+                    # string values over an alphabet that reaches every base64 digit (URL-safe '-' and '_'
+                    # come from '>', '?' and '~' at particular offsets), unicode included
+                    for j in range(tape.draw(3, "nstr")):
+                        t[f"str{j}"] = "".join(SER_ALPHA[tape.draw(len(SER_ALPHA), "ch")]
+                                               for _ in range(tape.draw(9, "slen")))
+                        out.probe("serialize_string_value")
                     hist.append(["serialize", t])
                     back = dc.deserialize(dc.serialize(t))
                     if back != t:
